@@ -37,6 +37,21 @@
 #include <thread>
 #include <sched.h>
 #include <dirent.h>
+#include <tins/handshake_capturer.h>
+#include <tins/crypto.h>
+#include <tins/eapol.h>
+#include <array>
+#include <cstring>
+#include <string>
+#include <vector>
+#include <utility>
+#include <sstream>
+#include <openssl/evp.h>
+#include <openssl/hmac.h>
+#include <openssl/aes.h>
+#include <openssl/sha.h>
+#include <openssl/md5.h>
+#include <openssl/rc4.h>
 
 #define PROP_ID PROP_ID_SUB
 #define PROP_MAXLEN_QUICK PROP_MAXLEN_QUICK_SUB
@@ -61,6 +76,17 @@ namespace w12 {
 }
 namespace w16 {
 #include "c16.cpp"
+}
+namespace w08 {
+#include "c08.cpp"
+}
+#define gen_len gen_len_c09
+namespace w09 {
+#include "c09.cpp"
+}
+#undef gen_len
+namespace w19 {
+#include "c19.cpp"
 }
 #undef PROP_ID
 #undef PROP_MAXLEN_QUICK
@@ -94,6 +120,9 @@ std::vector<Sub>& subs() {
         {"C10", w10::prop, no_setup, 400, "corpus/C10", {}},
         {"C12", w12::prop, no_setup, 300, nullptr, {}},
         {"C16", w16::prop, no_setup, 96, nullptr, {}},
+        {"C08", w08::prop, no_setup, 400, nullptr, {}},
+        {"C09", w09::prop, w09::prop_setup, 300, nullptr, {}},
+        {"C19", w19::prop, w19::prop_setup, 200, nullptr, {}},
     };
     return S;
 }
